@@ -33,7 +33,7 @@ class OneRequest(Harness):
         self.params = {"scenario": self.scen_params, "kinds": self.kinds, "connect_faults": connect_faults}
 
     def scenario(self):
-        s = TR.Scenario(**self.scen_params)
+        s = TR.Scenario(**{k: v for k, v in self.scen_params.items() if k != "tx_start"})
         s.connect_faults = self.connect_faults
         return s
 
@@ -46,6 +46,9 @@ class OneRequest(Harness):
         with world:
             loop = world.new_loop()
             inv = scen.make_inverter(M)
+            if scen.tcp:
+                # process-global Modbus/TCP transaction counter: optionally just below its 16-bit wrap
+                M.protocol._modbus_tcp_tx = self.scen_params.get("tx_start", 0)
             cmd = inv._READ_DEVICE_RUNNING_DATA if scen.aa55 else inv._read_command(scen.register, scen.count)
             world.peer_send, world.peer_connect = scen.peer(world, lambda: loop, script, lambda d: 0, obs.delivered)
             obs.exc, obs.result, obs.abort = None, None, None
@@ -95,8 +98,8 @@ class OneRequest(Harness):
             d = bytes(d)
             if (d[2:] != base[2:]) if scen.tcp else (d != base):
                 fail("retransmission differs from the first transmission")
-        if self.prop == "C09" and not obs.outcome.startswith(("response", "rejected", "failed")):
-            fail("request ended with an exception outside the InverterError family", obs.outcome)
+        if not obs.outcome.startswith(("response", "rejected", "failed")) and obs.abort is None:
+            fail("request ended with an exception outside the documented outcomes", obs.outcome)
         if self.prop == "C09" and obs.unhandled:
             fail("exception left unhandled in an event-loop callback", str(obs.unhandled[0].get("exception"))[:200])
         # completion no later than one timeout after the last event of the final attempt
@@ -183,7 +186,7 @@ def describe(inputs, ntx):
 
 
 CLASS = {"duplicate": "answer", "short_garbage": "garbage", "bad_checksum": "garbage", "sym_garbage": "garbage",
-         "lone_fragment": "fragment", "two_fragments": "fragment", "dup_fragment": "fragment"}
+         "lone_fragment": "fragment", "two_fragments": "fragment", "dup_fragment": "fragment", "dup_exception": "exception"}
 
 
 def describe_budget(inputs, ntx, budget):
@@ -202,11 +205,12 @@ CONFIGS_QUICK = [
     {"transport": "tcp", "keep_alive": False, "T": 2, "retries": 1},
     {"transport": "tcp", "keep_alive": True, "T": 2, "retries": 1},
     {"transport": "aa55", "keep_alive": False, "T": 2, "retries": 1},
+    {"transport": "tcp", "keep_alive": True, "T": 2, "retries": 1, "tx_start": 0xFFFD},
     {"transport": "udp", "keep_alive": False, "T": 3, "retries": 0},
     {"transport": "tcp", "keep_alive": True, "T": 3, "retries": 0},
 ]
 ALPHABET = ["drop", "answer", "short_garbage", "bad_checksum", "exception", "two_fragments", "lone_fragment", "duplicate",
-            "peer_closes", "send_error", "sym_garbage", "dup_fragment"]
+            "peer_closes", "send_error", "sym_garbage", "dup_fragment", "dup_exception"]
 
 
 ALPHABET_QUICK = ["drop", "answer", "short_garbage", "exception", "two_fragments", "peer_closes", "send_error", "dup_fragment"]
@@ -226,6 +230,9 @@ def tasks(tier, seed):
         if tier == "thorough":
             # depth 3 (retries=2) with the 8-kind alphabet, depth <= 2 with the full 12-kind alphabet
             alphabet = ALPHABET_QUICK if c["retries"] >= 2 else ALPHABET
+        if c.get("tx_start"):
+            alphabet = ["drop", "answer", "exception"]
+        base_alphabet = alphabet
         for k0 in alphabet:
             if c["retries"] >= 1:
                 # heavy first kinds: also pin the kind of the second transmission (more, smaller tasks)
